@@ -264,7 +264,8 @@ def gen_monitor(rnd, tier):
 def gen_csrevent(rnd, tier):
     return {"srcs": gen_sources(rnd, 40), "trigger": rnd.choice(["level", "rise", "fall", "level"]),
             "dw": maybe_bad(rnd, rnd.choice([1, 4, 8, 8, 13, 32])),
-            "align": maybe_bad(rnd, rnd.choice([0, 0, 0, 1, 2, 3, 4, 5])),
+            # the multiplexer inside loops over 2 * 2**alignment addresses (DESIGN.md §6 N5): alignment <= 6
+            "align": rnd.choice([-1, "x", None, 1.5]) if rnd.random() < 0.04 else rnd.choice([0, 0, 0, 1, 2, 3, 4, 5, 6]),
             "name": rnd.choice([None, None, "mon"]), "bad": "notmap" if rnd.random() < 0.04 else None}
 
 
